@@ -1,6 +1,7 @@
 package engines
 
 import (
+	"sort"
 	"fmt"
 	"os"
 	"path/filepath"
@@ -111,6 +112,44 @@ func c13RunImpl(c corr.Case) []string {
 						full := filepath.Join(dir, name)
 						if _, hidden := after[full]; hidden {
 							note += " #HIDDEN-LISTED(" + full + ")"
+						}
+					}
+				}
+			}
+			// every existing matching file and every directory is visible: a complete paged listing of a
+			// directory, for any page size, shows exactly the source's directories and matching files
+			if t[0] == "open" && strings.HasPrefix(res, "h=") {
+				dir := filepath.Clean("/" + string(corr.UnHex(t[1])))
+				if fi, err := src.Stat(dir); err == nil && fi.IsDir() {
+					var want []string
+					if sfis, err := afero.ReadDir(src, dir); err == nil {
+						for _, sfi := range sfis {
+							if sfi.IsDir() || re.MatchString(sfi.Name()) {
+								want = append(want, sfi.Name())
+							}
+						}
+					}
+					sort.Strings(want)
+					for _, n := range []int{-1, 1, 2, 3} {
+						f, err := r.Fs.Open(dir)
+						if err != nil {
+							continue
+						}
+						var got []string
+						for k := 0; k < 400; k++ {
+							fis, err := f.Readdir(n)
+							for _, x := range fis {
+								got = append(got, x.Name())
+							}
+							if err != nil || n <= 0 {
+								break
+							}
+						}
+						f.Close()
+						sort.Strings(got)
+						if strings.Join(got, "\x00") != strings.Join(want, "\x00") {
+							note += fmt.Sprintf(" #NOT-TRANSPARENT(listing of %s in pages of %d shows %q, the visible entries are %q)", dir, n, got, want)
+							break
 						}
 					}
 				}
